@@ -102,6 +102,7 @@ type FnCtx struct {
 	env      map[string]Term
 	obls     *[]*Obligation
 	loopOrd  map[ast.Node]int
+	captured map[*types.Var]bool // free variables of a closure under contract: postconditions see their final values
 	overflow bool
 	safety   bool
 	names    map[string]int
